@@ -1326,7 +1326,7 @@ void reb_simulation_rescale_var(struct reb_simulation* const r){
             if (vc->order == 1){
                 for (int w=0;w<r->N_var_config;w++){
                     struct reb_variational_configuration* wc = &(r->var_config[w]);
-                    if (wc->index_1st_order_a == vc->index || wc->index_1st_order_b == vc->index){
+                    if (wc->order == 2 && (wc->index_1st_order_a == vc->index || wc->index_1st_order_b == vc->index)){
                         if (!(r->var_rescale_warning & 4)){
                             r->var_rescale_warning |= 4;
                             reb_simulation_warning(r, "Rescaling a set of variational equations of order 1 which are being used by a set of variational equations of order 2. Order 2 equations will no longer be valid.");
@@ -1410,6 +1410,8 @@ int reb_simulation_add_variation_1st_order(struct reb_simulation* const r, int t
     r->var_config[r->N_var_config-1].index = index;
     r->var_config[r->N_var_config-1].lrescale = 0;
     r->var_config[r->N_var_config-1].testparticle = testparticle;
+    r->var_config[r->N_var_config-1].index_1st_order_a = 0; // only used by second order
+    r->var_config[r->N_var_config-1].index_1st_order_b = 0;
     struct reb_particle p0 = {0};
     if (testparticle>=0){
         reb_simulation_add(r,p0);
